@@ -20,6 +20,10 @@ U64MAXS == <<49,56,52,52,54,55,52,52,48,55,51,55,48,57,53,53,49,54,49,53>>
 U64OVER == <<49,56,52,52,54,55,52,52,48,55,51,55,48,57,53,53,49,54,49,54>>
 I64MINS == <<45,57,50,50,51,51,55,50,48,51,54,56,53,52,55,55,53,56,48,56>>
 I64UNDER == <<45,57,50,50,51,51,55,50,48,51,54,56,53,52,55,55,53,56,48,57>>
+NF1 == <<52,53,48,51,53,57,57,54,50,55,51,55,48,52,57,53,101,51,48>>      \* 4503599627370495e30
+NF2 == <<49,50,51,52,53,54,55,56,57,48,49,50,51,52,53,55,101,50,57>>      \* 1234567890123457e29
+NF3 == <<57,48,48,55,49,57,57,50,53,52,55,52,48,57,57,51>>                 \* 9007199254740993 (2^53+1, integer)
+NF4 == <<57,48,48,55,49,57,57,50,53,52,55,52,48,57,57,51,46,48>>           \* 9007199254740993.0 (halfway)
 SE == <<34,34>>  SA == <<34,97,34>>  SNL == <<34,92,110,34>>
 SU == <<34,92,117,48,48,101,57,34>>                                   \* "é"
 SP == <<34,92,117,100,56,51,100,92,117,100,101,48,48,34>>               \* surrogate pair
@@ -33,7 +37,7 @@ AtomsOf(p) ==
   CASE p = 0 -> {NULL, N1, SA}
     [] p = 1 -> {NULL, TRU, N1, NM1, N1p5, SA, SNL}
     [] p = 2 -> {NULL, TRU, FAL, N0, NM0, N1, NM1, N12, N1p5, N1e2, NMf, N0p0, NM0p0, U64MAXS, U64OVER,
-                 I64MINS, I64UNDER, SE, SA, SNL, SU, SP, SQ, SS, SF, SH, SBS}
+                 I64MINS, I64UNDER, NF1, NF2, NF3, NF4, SE, SA, SNL, SU, SP, SQ, SS, SF, SH, SBS}
     \* pool for the on-demand corpora: strings containing brackets, quotes, commas
     [] p = 3 -> {N1, TRU, SS, SQ, N1p5}
 KeysOf(p) ==
@@ -74,13 +78,18 @@ AllTrees == UNION {VN[k] : k \in 1..MaxNodes}
 
 \* wide flat containers: n children cross the 4-chunk copy loop and its remainders
 WideSizes == {0, 1, 2, 3, 4, 5, 6, 7, 8, 9, 15, 16, 17, 18, 33}
+BigSizes == {64, 65, 255, 256, 511, 512, 513}
+WideArr(n) == Arr([i \in 1..n |-> Tok(IF i % 3 = 0 THEN SA ELSE IF i % 3 = 1 THEN N12 ELSE TRU)])
+WideObj(n) == Obj([i \in 1..n |-> << <<34, 107, 48 + (i \div 100), 48 + ((i \div 10) % 10), 48 + (i % 10), 34>>,
+                                     Tok(IF i % 2 = 0 THEN NULL ELSE N1p5) >>])
 WideTrees ==
-  {Arr([i \in 1..n |-> Tok(IF i % 3 = 0 THEN SA ELSE IF i % 3 = 1 THEN N12 ELSE TRU)]) : n \in WideSizes}
-  \cup {Obj([i \in 1..n |-> << <<34, 107, 48 + (i \div 10), 48 + (i % 10), 34>>, Tok(IF i % 2 = 0 THEN NULL ELSE N1p5) >>]) : n \in WideSizes}
+  {WideArr(n) : n \in WideSizes} \cup {WideObj(n) : n \in WideSizes}
   \cup {Arr([i \in 1..n |-> Arr(<<Tok(N1)>>)]) : n \in {1, 2, 17}}
+\* hundreds of members / elements (only rendered minified: the R-model parse is quadratic)
+BigTrees == {WideArr(n) : n \in BigSizes} \cup {WideObj(n) : n \in BigSizes}
 
-Init == /\ tree \in (IF Wide THEN WideTrees ELSE AllTrees)
-        /\ layout \in Layouts
+Init == IF Wide THEN ((tree \in WideTrees /\ layout \in Layouts) \/ (tree \in BigTrees /\ layout = 0))
+        ELSE (tree \in AllTrees /\ layout \in Layouts)
 Next == UNCHANGED <<tree, layout>>
 
 Text == RenderL(tree, layout)
